@@ -25,7 +25,7 @@ const c15Check = "c15-reconnect"
 
 type c15Emit struct {
 	AtMs      int    `json:"at_ms"`
-	Kind      string `json:"kind"` // plain | volatile | ack
+	Kind      string `json:"kind"` // plain | volatile | ack | volatile-timeout | timeout-volatile
 	TimeoutMs int    `json:"timeout_ms"`
 }
 
@@ -189,6 +189,17 @@ func evalC15(c c15Case) (f *Failure, nontrivial bool) {
 					cli.Emit("e", tok)
 				case "volatile":
 					cli.Volatile().Emit("e", tok)
+				case "volatile-timeout", "timeout-volatile":
+					// the two modifiers chained, in either order: still volatile
+					em := cli.Volatile().Timeout(time.Duration(e.TimeoutMs) * time.Millisecond)
+					if e.Kind == "timeout-volatile" {
+						em = cli.Timeout(time.Duration(e.TimeoutMs) * time.Millisecond).Volatile()
+					}
+					em.Emit("a", tok, func(err error, back int) {
+						mu.Lock()
+						acks[tok] = append(acks[tok], err)
+						mu.Unlock()
+					})
 				case "ack":
 					cli.Timeout(time.Duration(e.TimeoutMs)*time.Millisecond).Emit("a", tok, func(err error, back int) {
 						mu.Lock()
@@ -372,7 +383,11 @@ func evalC15(c c15Case) (f *Failure, nontrivial bool) {
 					res = fail("delivered", fmt.Sprintf("%s reached the server %d times", desc, count[tok]))
 					return
 				}
-			case st == "offline" && e.Kind == "volatile":
+			case st == "offline" && (e.Kind == "volatile" || e.Kind == "volatile-timeout" || e.Kind == "timeout-volatile"):
+				if len(acks[tok]) > 1 {
+					res = fail("exactly-once", fmt.Sprintf("%s: ack callback ran %d times", desc, len(acks[tok])))
+					return
+				}
 				if count[tok] != 0 {
 					res = fail("volatile-dropped-offline", fmt.Sprintf("%s was delivered although it is volatile and the socket was disconnected", desc))
 					return
@@ -497,11 +512,11 @@ func genC15Case(t *rapid.T, allowPending bool) c15Case {
 		end = c.UpAtMs + c.MaxMs + c.ConnectMs + 6000
 	}
 	for i, n := 0, rapid.IntRange(0, 10).Draw(t, "emits"); i < n; i++ {
-		e := c15Emit{AtMs: rapid.IntRange(1000, end).Draw(t, "at"), Kind: rapid.SampledFrom([]string{"plain", "plain", "volatile", "ack"}).Draw(t, "kind")}
+		e := c15Emit{AtMs: rapid.IntRange(1000, end).Draw(t, "at"), Kind: rapid.SampledFrom([]string{"plain", "plain", "plain", "volatile", "volatile", "ack", "ack", "volatile-timeout", "timeout-volatile"}).Draw(t, "kind")}
 		if c.ConnectMs > 0 && rapid.IntRange(0, 3).Draw(t, "early") == 0 {
 			e.AtMs = rapid.IntRange(10, c.ConnectMs-10).Draw(t, "atEarly")
 		}
-		if e.Kind == "ack" {
+		if e.Kind == "ack" || e.Kind == "volatile-timeout" || e.Kind == "timeout-volatile" {
 			e.TimeoutMs = rapid.SampledFrom([]int{200, 1000, 5000}).Draw(t, "timeout")
 		}
 		// keep emits away from the instants at which the link goes down / comes back (the client's view is ambiguous there)
@@ -519,7 +534,7 @@ func TestC15_Reconnect(t *testing.T) {
 	setT(t)
 	defer startWatchdog(t, 90*time.Second)()
 	ev := NewEv(t, "C15", c15Check, "rapid on the virtual-time rig: Manager with ReconnectionAttempts 0..5, delay {50 ms, 100 ms, 1 s}, max {1,2,5,20} x delay, jitter {0, 0.5, 1}; the server is taken away "+
-		"(links cut, dials refused) and given back after {10 ms, delay/2, 3 x delay, 3 x max, 8 s, never}, optionally flapping once more; 0..10 emits of kind plain / volatile / ack-with-timeout placed before, "+
+		"(links cut, dials refused) and given back after {10 ms, delay/2, 3 x delay, 3 x max, 8 s, never}, optionally flapping once more; 0..10 emits of kind plain / volatile / ack-with-timeout / volatile and timeout chained in either order placed before, "+
 		"during and after the outage (and, with a slow namespace middleware, while the CONNECT is pending); oracle on the manager's reconnect_* events with virtual timestamps: attempt numbers 1,2,.., every "+
 		"gap in (0, max], first gap in the jitter band around delay, exactly N attempts then reconnect_failed once then silence, reconnect when reachable; delivery: online emits once, offline plain emits "+
 		"exactly once after the reconnect and in order on the wire (long-polling), offline volatile never, offline ack emits that time out are purged and get ErrAckTimeout once; "+
